@@ -541,6 +541,12 @@ def _check_lb(ob: _Ob, comp: Computer, w: Write, is_sam: bool) -> None:
                 first_split = min((x.ev.seq for x in splits), default=0)
                 jumps = [e for e in comp.ft.events if e.kind in ("break", "continue", "return", "raise") and first_split < e.seq < w.ev.seq and
                          [f[1] for f in e.ctx if f[0] in ("for", "while")][-1:] == [rep_uid]]
+                # ... and the repetition loop runs all its rounds: no data-dependent exit anywhere in it ("converged, stop")
+                exits = [e for e in comp.ft.events if e.kind in ("break", "return") and [f[1] for f in e.ctx if f[0] in ("for", "while")][-1:] == [rep_uid]]
+                ob.check("B12", {"C04", "C07", "C08"}, not exits, comp.ref.where(exits[0].node) if exits else where, fn,
+                         "every one of the repetitions + 1 rounds runs (no early exit from the repetition loop)", "repetition-early-exit",
+                         "round 0 rebuilds the lower bounds from the known values; `no bound moved, stop` compares with what an EARLIER compute (another knowledge set, another "
+                         "computer) left in the table - whether the later rounds run then depends on history, and a bound can fall when knowledge grows")
                 guarded = [f for f in w.loop_ev.ctx if f[0] == "if" and not (len(f) > 4 and f[4] == "implied")] if w.loop_ev is not None else []
                 ob.check("B11b", {"C04", "C07", "C08"}, not jumps and not guarded, comp.ref.where((jumps[0] if jumps else w.loop_ev).node), fn,
                          "the closure pass runs in every repetition, the last one included (no break / continue / guard between the split loop and the closure loop)",
